@@ -116,7 +116,7 @@ def gen_inputs(ctx, axes, classes):
             res = rng.choice(by_delays[key[0]])
             out.append({"size": [rng.choice(big), rng.choice(S), rng.choice(S)][::rng.choice([1, -1])],
                         "res": res, "s": rng.choice(Ss), "T": key[1], "maxs": 0})
-    n = ctx.pick(6500, 110000)
+    n = ctx.pick(6500, 180000)
     sizes_small = [s for s in S if s < 10 ** 9]
     for _ in range(n):
         kind = rng.random()
@@ -167,7 +167,11 @@ def sig_for(clause, rec, detail):
     if clause == "oracle:KeysDistinct":
         keys = [s["key"] for s in sc]
         dup = sorted({k for k in keys if keys.count(k) > 1})
-        sig.update({"dup_keys": dup, "first_dup_level": min(i for i, k in enumerate(keys) if keys.count(k) > 1),
+        # every group of equal keys reaches back into the levels at which
+        # some axis is not halved yet (level <= max delay)
+        firsts = [min(i for i, k in enumerate(keys) if k == dk) for dk in dup]
+        sig.update({"dup_keys": dup, "first_dup_level": min(firsts),
+                    "dups_only_in_delay_phase": all(f < max(d) for f in firsts),
                     "min_mantissa": sg.min_mantissa(inp), "isotropic": max(d) == 0})
     elif clause == "oracle:LastScaleFits":
         last = sc[-1]["size"]
@@ -181,6 +185,7 @@ def sig_for(clause, rec, detail):
         sig.update({"level": k, "axis": a, "o": o, "n": n, "f": f, "old_size": sc[k]["size"][a],
                     "outcome": detail["outcome"], "axis_delay": d[a], "nbad": detail["nbad"],
                     "nsilent": detail["nsilent"], "any_silent": detail["nsilent"] > 0,
+                    "half_chunk": o // f if f else 0,
                     "n_over_half": (str(Fraction(n * f, o)) if o else "inf")})
     elif clause == "oracle:Raised":
         sig["exception"] = rec["raised"]
@@ -214,6 +219,10 @@ def judge_and_report(ctx, recs):
              for r in recs]
     verdicts = ctx.judge("Trace_ScaleGen", cases, workers=16, chunk=20000)
     per_clause = {}
+    profile = {}
+    PROFILE_FIELDS = ("distinct_delays", "max_delay", "T", "maxs", "via", "outcome", "f", "axis_delay",
+                      "n_over_half", "any_silent", "dups_only_in_delay_phase", "isotropic",
+                      "all_over_axes_delayed", "exception", "first_dup_level")
     drift = {}
     for rec, case in zip(recs, cases):
         ctx.count()
@@ -229,11 +238,17 @@ def judge_and_report(ctx, recs):
         clauses, detail = decode(code)
         for cl in clauses:
             per_clause[cl] = per_clause.get(cl, 0) + 1
-            ctx.violation(cl, sig_for(cl, rec, detail),
+            sg_ = sig_for(cl, rec, detail)
+            for fld in PROFILE_FIELDS:
+                if fld in sg_:
+                    d_ = profile.setdefault(cl, {}).setdefault(fld, {})
+                    d_[str(sg_[fld])] = d_.get(str(sg_[fld]), 0) + 1
+            ctx.violation(cl, sg_,
                           {"in": rec["in"], "via": rec["via"], "params": rec["params"],
                            "raised": rec["raised"], "code": code,
                            "scales": rec["scales"][:8]})
     ctx.notes["failing_clause_counts"] = per_clause
+    ctx.notes["violation_profile"] = profile
     ctx.notes["drift_counts"] = drift
     return verdicts, cases
 
